@@ -37,14 +37,16 @@ func c03EdgeRule(id, path string, methods []string, slashes string, params ...rc
 }
 
 func c03EdgeSets() []c03EdgeSet {
-	exact := func(name, v string) rconfig.ParameterMatcher { return rconfig.ParameterMatcher{Name: name, Type: "exact", Value: v} }
+	exact := func(name, v string) rconfig.ParameterMatcher {
+		return rconfig.ParameterMatcher{Name: name, Type: "exact", Value: v}
+	}
 	return []c03EdgeSet{
 		{Name: "two rules meet at a free wildcard node under different names for the single wildcard before it", MayReject: true,
 			Rules: []rconfig.Rule{c03EdgeRule("team", "/fw/:team/*rest", nil, "", exact("team", "a")), c03EdgeRule("group", "/fw/:group/*rest", nil, "")},
-			Reqs: []c03EdgeReq{{"GET", "/fw/a/b/c", "team", map[string]string{"team": "a", "rest": "b/c"}}, {"GET", "/fw/z/q", "group", map[string]string{"group": "z", "rest": "q"}}}},
+			Reqs:  []c03EdgeReq{{"GET", "/fw/a/b/c", "team", map[string]string{"team": "a", "rest": "b/c"}}, {"GET", "/fw/z/q", "group", map[string]string{"group": "z", "rest": "q"}}}},
 		{Name: "the same with unnamed free wildcards", MayReject: true,
 			Rules: []rconfig.Rule{c03EdgeRule("team", "/fu/:team/**", nil, "", exact("team", "a")), c03EdgeRule("group", "/fu/:group/**", nil, "")},
-			Reqs: []c03EdgeReq{{"GET", "/fu/a/b", "team", map[string]string{"team": "a"}}, {"GET", "/fu/z/q", "group", map[string]string{"group": "z"}}}},
+			Reqs:  []c03EdgeReq{{"GET", "/fu/a/b", "team", map[string]string{"team": "a"}}, {"GET", "/fu/z/q", "group", map[string]string{"group": "z"}}}},
 		{Name: "a method list whose exclusions leave nothing", MayReject: true,
 			Rules: []rconfig.Rule{c03EdgeRule("none1", "/m1/:x", []string{"GET", "!GET"}, ""), c03EdgeRule("none2", "/m2/:x", []string{"!POST"}, ""),
 				c03EdgeRule("none3", "/m3/:x", []string{"ALL", "!GET", "!HEAD", "!POST", "!PUT", "!PATCH", "!DELETE", "!CONNECT", "!OPTIONS", "!TRACE"}, "")},
